@@ -5,3 +5,6 @@ CHECK_DEADLOCK FALSE
 \* The parameter-table judge (hook ots_params) always compares with the formula Ls.
 CONSTANT LsEff <- LsWithKnownFindings
 CONSTANT D_LEAF <- Neg_D_LEAF
+CONSTANT MaxLevels <- EnvMaxLevels
+CONSTANT MaxHeightAt <- EnvMaxHeightAt
+CONSTANT MinWAt <- EnvMinWAt
